@@ -36,7 +36,7 @@ func (eng) Assumptions() []string {
 func (eng) Cases(seed uint64, tier string) []core.CaseDesc {
 	n := 400
 	if tier == "thorough" {
-		n = 20000
+		n = 600000
 	}
 	var cs []core.CaseDesc
 	for i := 0; i < n; i++ {
